@@ -39,6 +39,8 @@ def class_attr(module, ci, name):
 
 
 class RModel(PlainModel):
+    track_extend = True
+
     def __init__(self, module, fparam=None, cls=None):
         PlainModel.__init__(self, module)
         self.fparam = fparam
@@ -81,7 +83,9 @@ class RModel(PlainModel):
             v = ('call', f, args, kws)
             st.emit('ROUNDCALL', tuple(args) + tuple(kws), line, val=v, extra={'args': args, 'kws': kws})
             return [R(st, v)]
-        return None
+        if f[0] == 'lib' and libname(f) in ('_keygen', 'signature', 'validate', 'isvalid', 'keygen') + FACTORIES + ROUNDERS:
+            return None       # the key-generation entry points stay symbolic (their normal form is compared, not their body)
+        return PlainModel.call(self, f, args, kws, st, node)      # other helper functions of the module are inlined
 
 
 def isinstance_fact(o, x):
@@ -202,8 +206,8 @@ def rule_R_GUARD_STR_KW(ctx, repo):
                                  'a data dictionary (%s) is expanded with ** into a call: keyword names must be strings, so a valid call whose argument is a '
                                  'dict with non-string keys fails with TypeError inside the rounder' % render(x),
                                  '%s:%d' % (m.rel, e.line), render_path(o))
-    if n_round < 5 and not n_custom:
-        raise AnalysisError('instance count below confirmed minimum: %d round() call events (< 5)' % n_round)
+    if n_round < 3 and not n_custom:      # at least one rounding site per factory (deep / simple / shallow)
+        raise AnalysisError('instance count below confirmed minimum: %d round() call events (< 3)' % n_round)
 
 
 def unparse_short(x):
@@ -234,7 +238,17 @@ def rule_R_NONE(ctx, repo):
         if a.args or not a.vararg or not a.kwarg:
             raise AnalysisError('%s does not take (*args, **kwds)' % qual)
         ARGS, KWDS = ('param', a.vararg.arg), ('param', a.kwarg.arg)
-        fouts = eng.run_function(node, rets[0].st.env)
+        # the closure may have been defined inside an inlined helper (def _round_inputs(rounder, f): def func...): its free variables
+        # live in that helper's environment
+        cenv = dict(rets[0].st.env)
+        denv = eng._closures[rets[0].val[2]][1]
+        if denv:
+            for k_, v_ in denv.items():
+                cenv.setdefault(k_, v_)
+            for k_ in ast.walk(node):
+                if isinstance(k_, ast.Name) and k_.id in denv:
+                    cenv[k_.id] = denv[k_.id]
+        fouts = eng.run_function(node, cenv)
         ctx.add_paths(fouts, qual, trivial_kinds=('BRANCH',))
         for o in fouts:
             if o.kind != RETURN:
@@ -404,7 +418,15 @@ def rule_R_PURE(ctx, repo):
         m = repo.mod(modname)
         shared, results = own.analyse_module(m)
         n += sum(len(ft.sites) for ft in results.values())
-        for q, node, recv, pname, via in own.param_mutations(results):
+        # module-level helpers (leading underscore, used by no other module of the package, called inside this one) are judged at their call sites
+        used_elsewhere = set()
+        for om in repo.modules.values():
+            if om is not m:
+                for origin in om.imports.values():
+                    used_elsewhere.add(origin.split('.')[-1])
+        called = set(callee for ft in results.values() for _, callee, _ in ft.calls)
+        private = set(n_ for n_ in m.functions if n_.startswith('_') and not n_.startswith('__') and n_ not in used_elsewhere and n_ in called)
+        for q, node, recv, pname, via in own.param_mutations(results, private):
             if via:
                 msg = '%s passes the caller-owned object "%s" (from parameter %s) to %s(), which mutates that argument in place' % (q, recv, pname, via)
             else:
@@ -438,15 +460,20 @@ def rule_R_DEEP(ctx, repo):
                 if not rec:
                     continue
                 idx = e.args[1]
-                loop = 'args' if contains_term(idx, lambda t: t[0] == 'iter' and contains_term(t[1], lambda u: u == va)) else 'kwds'
+                # which of (*args, **kwds) does the loop that stores this element run over (one merged loop may cover both)
+                kwp = ('param', node.args.kwarg.arg) if node.args.kwarg else None
+                over_args = contains_term(idx, lambda t: t[0] == 'iter' and contains_term(t[1], lambda u: u == va))
+                over_kwds = contains_term(idx, lambda t: t[0] == 'iter' and contains_term(t[1], lambda u: u == kwp)) or not over_args
+                loops = (['args'] if over_args else []) + (['kwds'] if over_kwds else [])
                 # which guard holds for the element on this path
                 for t, b in truth.items():
                     if not b or t[0] != 'call':
                         continue
-                    if t[1] == ('lib', 'isinstance') and len(t[2]) == 2 and 'dict' in class_names(t[2][1]) and contains_term(val, lambda u: u == t[2][0]):
-                        found[('dict', loop)] = True
-                    if t[1][0] == 'lib' and libname(t[1]) == 'isiterable' and contains_term(val, lambda u: u == ('star', t[2][0])):
-                        found[('iter', loop)] = True
+                    for loop in loops:
+                        if t[1] == ('lib', 'isinstance') and len(t[2]) == 2 and 'dict' in class_names(t[2][1]) and contains_term(val, lambda u: u == t[2][0]):
+                            found[('dict', loop)] = True
+                        if t[1][0] == 'lib' and libname(t[1]) == 'isiterable' and contains_term(val, lambda u: u == ('star', t[2][0])):
+                            found[('iter', loop)] = True
     if qual is None:
         raise AnalysisError('anchor vanished: deep_round_factory.deep_round')
     for (kind, loop), ok in sorted(found.items()):
